@@ -268,7 +268,8 @@ def verify_rule(ctx, r):
         r.bad("candidate|verified", "a candidate line can be returned as a match without calling is_match on it", fn=f, construct="Candidate")
     else:
         r.ok("candidate|verified", "a Candidate line whose is_match says no is never returned", fn=f)
-    s = seed_after_call(f, ism[0], V("Ok", I(0)), stop_blocks=hdrs)
+    from ..flow import combinator_model as _cmv
+    s = seed_after_call(f, ism[0], V("Ok", I(0)), call_model=_cmv(facts), stop_blocks=hdrs)
     rets = [b for b in s.exec_blocks if f.blocks[b]["term"]["k"] == "return"]
     if rets:
         r.bad("candidate|false", "is_match == false still returns from find_by_line_fast instead of resuming the scan",
@@ -300,7 +301,7 @@ def verify_rule(ctx, r):
         r.ok("confirmed|crlf", "a Confirmed line is returned unverified only when the terminator is not CRLF", fn=f)
     else:
         r.ok("confirmed|crlf", "every Confirmed line is verified with is_match", fn=f)
-    s = seed_after_call(f, ism[0], V("Ok", I(1)), stop_blocks=hdrs)
+    s = seed_after_call(f, ism[0], V("Ok", I(1)), call_model=_cmv(facts), stop_blocks=hdrs)
     vals = {x for v in s.ret_values.values() for x in value_set(v)}
     if vals and all(v is not None and v[1] == "Ok" and v[2] is not None and v[2][1] == "Some" for v in vals):
         r.ok("candidate|true", "is_match == true ⇒ Ok(Some(line))", fn=f)
